@@ -130,6 +130,11 @@ pub fn compare_traces(pred: &Pred, act: &Actual, top_ok_and_events_agree: Option
                             if !child_ok && whys.iter().any(|x| matches!(x, Why::AfterMalformed)) {
                                 owners.push("C13");
                             }
+                            // a reply does run here, but the environment it is given names another contract:
+                            // either it runs on the wrong contract (C03) or it is told a wrong own address (C05)
+                            if ak == Some(Kind::Reply) && pk == Some(Kind::Reply) && a.map(|e| &e.contract) != p.map(|e| &e.contract) {
+                                owners.push("C05");
+                            }
                         }
                     }
                 }
